@@ -1590,13 +1590,20 @@ bool Parser::parseTagTypeSpecifier_AtFirst(
                 tySpec->closeBraceTkIdx_ = consume();
                 goto MembersParsed;
 
-            default:
+            default: {
+                auto membTkIdx = curTkIdx_;
                 if (!((this)->*(parseMember))(membDecl)) {
                     ignoreMemberDeclaration();
                     if (peek().kind() == SyntaxKind::EndOfFile)
                         return false;
+                    // The recovery may stop at the very token that the member
+                    // couldn't start with: skip it, or this loop won't end.
+                    if (curTkIdx_ == membTkIdx
+                            && peek().kind() != SyntaxKind::CloseBraceToken)
+                        consume();
                 }
                 break;
+            }
         }
         *declList_cur = makeNode<DeclarationListSyntax>(membDecl);
         declList_cur = &(*declList_cur)->next;
